@@ -201,6 +201,7 @@ def run(rep, tier):
     exclude_border_probe(rep, r, 8 * scale)
     separation_symmetry_probe(rep, r, 12 * scale)
     separation_footprint_correspondence(rep, drv, r)
+    iraf_separation_correspondence(rep, drv, r)
     kernel_orientation_probe(rep, r, 12 * scale)
     xycoords_jitter_probe(rep, r, 4 * scale)
 
@@ -511,6 +512,61 @@ def separation_footprint_correspondence(rep, drv, r):
                               f'pixel (offsets {offs[:6]} ...)', {'min_separation': sep, 'offsets': offs})
             else:
                 rep.tie_broken('separation footprint differs from the model', {'min_separation': sep, 'model': o[:200], 'impl': offs})
+
+
+def iraf_separation_correspondence(rep, drv, r):
+    """(T) the separation IRAFStarFinder works with (an explicit min_separation - zero included - or the minsep_fwhm default) and the
+    neighbourhood it hands to find_peaks (captured as above) vs the Lean model `irafMinSep` / `neighbourhood`"""
+    import photutils.detection.core as core
+    from photutils.detection import IRAFStarFinder
+    rs = np.random.RandomState(11)
+    yy, xx = np.mgrid[0:31, 0:31]
+    img = 80 * np.exp(-((xx - 15) ** 2 + (yy - 14) ** 2) / (2 * 1.3 ** 2)) + rs.normal(0, 0.2, (31, 31))
+    cases = [(0, 2.0, 2.5), (0.0, 2.8, 2.5), (None, 2.0, 2.5), (None, 2.8, 1.5), (None, 1.0, 0.5), (3.0, 2.0, 2.5), (4.2, 2.8, 2.5), (-1.0, 2.0, 2.5),
+             (None, r.randint(10, 40) / 10, r.randint(5, 30) / 10), (r.choice([0, 1.5, 2.5]), 2.4, 2.0)]
+    orig = core.find_peaks
+    lines, exps = [], []
+    for given, fwhm, mf in cases:
+        got = {}
+
+        def spy(data, threshold, **kw):
+            got['fp'] = None if kw.get('footprint') is None else np.array(kw['footprint'])
+            return orig(data, threshold, **kw)
+        try:
+            with warnings.catch_warnings():
+                warnings.simplefilter('ignore')
+                f = IRAFStarFinder(threshold=5.0, fwhm=fwhm, minsep_fwhm=mf, min_separation=given)
+                core.find_peaks = spy
+                try:
+                    f(img)
+                finally:
+                    core.find_peaks = orig
+            fp = got.get('fp')
+            if fp is None:
+                rep.tie_broken('IRAFStarFinder neighbourhood not observed', {'min_separation': given, 'fwhm': fwhm, 'minsep_fwhm': mf})
+                continue
+            if fp.shape == f.kernel.mask.shape and np.array_equal(fp.astype(bool), f.kernel.mask.astype(bool)) and float(f.min_separation) == 0.0:
+                res = f'ok {q(float(f.min_separation))} kernel'
+            else:
+                cy, cx = fp.shape[0] // 2, fp.shape[1] // 2
+                res = f'ok {q(float(f.min_separation))} ' + ' '.join(f'{j - cy},{i - cx}' for j in range(fp.shape[0]) for i in range(fp.shape[1]) if fp[j, i])
+        except ValueError:
+            res = 'err ValueError'
+        lines.append(f"irafsep {'none' if given is None else q(float(given))} {q(fwhm)} {q(mf)}")
+        exps.append((res, given, fwhm, mf))
+    out = drv.run(lines)
+    if out is None:
+        rep.tie_broken('model driver failed (irafsep)', drv.error)
+        return
+    for ln, o, (res, given, fwhm, mf) in zip(lines, out, exps):
+        rep.traces += 1
+        rep.case(('irafsep', given, fwhm, mf), True, kind='iraf-separation:' + ('default' if given is None else 'zero' if given == 0 else 'given'))
+        if o != res:
+            if given is not None and given >= 0 and res.startswith('ok') and res.split()[1] != q(float(given)):
+                rep.violation('irafstarfinder-ignores-min_separation', f'IRAFStarFinder(fwhm={fwhm}, minsep_fwhm={mf}, min_separation={given!r}) works with a '
+                              f'separation of {res.split()[1]}', {'min_separation': given, 'fwhm': fwhm, 'minsep_fwhm': mf})
+            else:
+                rep.tie_broken('IRAFStarFinder separation / neighbourhood differs from the model', {'op': ln, 'model': o[:200], 'impl': res[:200]})
 
 
 def exclude_border_probe(rep, r, n):
